@@ -325,12 +325,13 @@ impl Ctx {
             viol.len(),
             self.start.elapsed().as_secs_f64()
         );
+        for m in self.inconclusive_msgs.lock().unwrap().iter() {
+            println!("INCONCLUSIVE-CASE: {}", m);
+        }
         if !viol.is_empty() {
             1
         } else if inc > 0 && inc * 10 > self.evaluations.load(Ordering::Relaxed) {
-            for m in self.inconclusive_msgs.lock().unwrap().iter() {
-                println!("INCONCLUSIVE: {}", m);
-            }
+            println!("INCONCLUSIVE: more than 10% of the cases could not be decided");
             2
         } else {
             0
